@@ -2,6 +2,7 @@ package main
 
 import (
 	"fmt"
+	"os"
 	"go/ast"
 	"go/types"
 	"sort"
@@ -93,6 +94,9 @@ func (a *sqlAST) computeLiteralTypes() {
 				}
 			}
 		case *types.Interface:
+			if t.NumMethods() == 0 {
+				return false
+			}
 			for _, tn := range a.named {
 				if !lit[tn] {
 					continue
@@ -270,6 +274,9 @@ func (a *sqlAST) reachable(p *Program, exclude map[string]bool) map[*types.TypeN
 		if out[tn] {
 			return
 		}
+		if os.Getenv("ACRAVERIFY_DEBUG_REACH") != "" {
+			fmt.Fprintln(os.Stderr, "reach", tn.Name())
+		}
 		out[tn] = true
 		visitT(tn.Type().Underlying(), 0)
 	}
@@ -300,6 +307,9 @@ func (a *sqlAST) reachable(p *Program, exclude map[string]bool) map[*types.TypeN
 				visitT(t.Field(i).Type(), depth+1)
 			}
 		case *types.Interface:
+			if t.NumMethods() == 0 {
+				return // interface{} (ColName.Metadata): not an AST edge
+			}
 			for _, tn := range a.named {
 				if exclude[tn.Name()] {
 					continue
